@@ -392,8 +392,8 @@ theorem run_balS (cid : Nat) (c : Cfg) (e : Env) (s : State) (A0 : List (Nat × 
       by_cases hadm : e.adm = 2
       · simp only [hadm, if_true]
         refine ⟨[], ?_⟩
-        show BalS (restoreStorage (cancel cid ctx.cbs ctx.wkeys ctx.live s1)).aevents A0 cid []
-        rw [(C01.restoreStorage_frame _).aevents, (C01.cancel_frame _ _ _ _ _).aevents]; exact hb1
+        show BalS (restoreStorage _ (cancel cid ctx.cbs ctx.wkeys ctx.live s1)).aevents A0 cid []
+        rw [(C01.restoreStorage_frame _ _).aevents, (C01.cancel_frame _ _ _ _ _).aevents]; exact hb1
       simp only [hadm, if_false]
       have hno : ((order e.ps ctx.apps).map (·.name)).Nodup := by
         rw [hc2]
@@ -407,8 +407,8 @@ theorem run_balS (cid : Nat) (c : Cfg) (e : Env) (s : State) (A0 : List (Nat × 
         dsimp only
         simp only [Bool.false_eq_true, if_false] at h2
         refine ⟨F, ?_⟩
-        show BalS (restoreStorage (cancel cid ctx.cbs ctx.wkeys ctx.live s2)).aevents A0 cid F
-        rw [(C01.restoreStorage_frame _).aevents, (C01.cancel_frame _ _ _ _ _).aevents]; exact h2
+        show BalS (restoreStorage _ (cancel cid ctx.cbs ctx.wkeys ctx.live s2)).aevents A0 cid F
+        rw [(C01.restoreStorage_frame _ _).aevents, (C01.cancel_frame _ _ _ _ _).aevents]; exact h2
       | true =>
         dsimp only
         simp only [if_true, List.nil_append] at h2
@@ -429,8 +429,8 @@ theorem run_balS (cid : Nat) (c : Cfg) (e : Env) (s : State) (A0 : List (Nat × 
           refine ⟨F, ?_⟩
           have e1 : ctx'.cid = cid := h3.2.1.trans hc1
           have e2 : ctx'.apps = c.apps := h3.2.2.1.trans hc2
-          show BalS (restoreStorage (unsyncedStop (some ctx') s3)).aevents A0 cid F
-          rw [(C01.restoreStorage_frame _).aevents]
+          show BalS (restoreStorage _ (unsyncedStop (some ctx') s3)).aevents A0 cid F
+          rw [(C01.restoreStorage_frame _ _).aevents]
           exact unsyncedStop_some_balS ctx' s3 A0 cid F (by rw [e2]; exact hn) (by rw [e1, e2]; exact h3b)
         | true =>
           dsimp only
